@@ -45,7 +45,7 @@ def cases(tier, seed):
                     "root": ("provider", "converter")[int(rng.integers(0, 2))],
                     "scale": float(rng.choice([0.2, 0.5, 1.0, 1.3, 2.0, 5.0])),
                     "iseed": int(rng.integers(0, 2**31))})
-    laws = ["compose", "curry", "covariance", "rescale", "gaussian", "masks", "loader", "lists"]
+    laws = ["compose", "curry", "covariance", "rescale", "gaussian", "masks", "loader", "lists", "compare"]
     for i in range(nl):
         out.append({"kind": "law", "law": laws[i % len(laws)], "scale": float(rng.choice([0.2, 0.5, 1.0, 1.3, 2.0, 5.0])),
                     "lam": float(rng.choice([0.5, 2.0, 3.7])), "iseed": int(rng.integers(0, 2**31))})
@@ -476,6 +476,37 @@ def _law_case(case):
         case.check(ld.normalize_mask(gprov).shape == shape, "normalize_mask(provider) not evaluated at the loader scale", None)
         stack = ld.normalize_template(np.stack([img, img]), allow_multiple=True)
         case.check(isinstance(stack, list) and len(stack) == 2, "normalize_template(4-D, allow_multiple) is not a list", None)
+    elif law == "compare":
+        # integer-valued images: ties exist, so <= / < and >= / > are distinguishable
+        ia = rng.integers(0, 3, size=shape).astype(np.float32)
+        ib = rng.integers(0, 3, size=shape).astype(np.float32)
+        pa, pb = pipe.from_array(ia, original_scale=1.0, tol=1e9), pipe.from_array(ib, original_scale=1.0, tol=1e9)
+
+        @pipe.converter_function
+        def plus(img, scale_, v):
+            return (img + v).astype(np.float32)
+
+        ca, cb = plus(0.0), plus(1.0)
+        k = float(rng.integers(0, 3))
+        xi = rng.integers(0, 3, size=shape).astype(np.float32)
+        for name, f in CMP.items():
+            combos = {
+                "provider-provider": (lambda: f(pa, pb)(scale), f(ia, ib)),
+                "provider-scalar": (lambda: f(pa, k)(scale), f(ia, k)),
+                "converter-converter": (lambda: f(ca, cb)(xi, scale), f(xi, xi + 1)),
+                "converter-provider": (lambda: f(ca, pb)(xi, scale), f(xi, ib)),
+                "converter-scalar": (lambda: f(ca, k)(xi, scale), f(xi, k)),
+                "(converter @ provider)-provider": (lambda: f(ca @ pa, pb)(scale), f(ia, ib)),
+            }
+            for cname, (thunk, want) in combos.items():
+                try:
+                    got = np.asarray(thunk())
+                except Exception as e:
+                    case.check(False, f"{cname} '{name}' raised {type(e).__name__}: {str(e)[:100]}", None)
+                    continue
+                case.check(got.shape == want.shape and np.array_equal(got.astype(bool), want.astype(bool)),
+                           f"{cname} '{name}' is not the voxel-wise comparison", None,
+                           n_diff=int(np.sum(got.astype(bool) != want.astype(bool))) if got.shape == want.shape else None)
     elif law == "lists":
         imgs = [(rng.random(shape)).astype(np.float32) for _ in range(3)]
         lp = pipe.from_arrays(imgs, original_scale=scale)
